@@ -29,8 +29,8 @@ PROP = dict(
                  "non-scriptable firmware honours the one-shot try boot only on an orderly reboot while kernel_status=try"],
     engines=[
         gt("uc16", "boot", "TestVerifC17UC16", dict(checks=400, shards=1), dict(checks=5000, shards=4)),
-        gt("uc20grub", "boot", "TestVerifC17UC20Grub", dict(checks=400, shards=1), dict(checks=5000, shards=4)),
-        gt("uc20env", "boot", "TestVerifC17UC20Env", dict(checks=400, shards=1), dict(checks=5000, shards=4)),
-        gt("uc20ns", "boot", "TestVerifC17UC20NS", dict(checks=400, shards=1), dict(checks=5000, shards=4)),
+        gt("uc20grub", "boot", "TestVerifC17UC20Grub", dict(checks=400, shards=1), dict(checks=2500, shards=4)),
+        gt("uc20env", "boot", "TestVerifC17UC20Env", dict(checks=400, shards=1), dict(checks=2500, shards=4)),
+        gt("uc20ns", "boot", "TestVerifC17UC20NS", dict(checks=400, shards=1), dict(checks=2500, shards=4)),
     ],
 )
